@@ -3,7 +3,7 @@
 A table of small seeded mutations of the library, each applied to a scratch copy of the repository's
 `mysensors` package under $TMPDIR (outside /repo and /verif, deleted afterwards).  The matching check is run
 against that copy (VERIF_REPO) and must report a violation within a bounded number of runs.
-Run with ``./check sensitivity``; results go to evidence/sensitivity.json.
+Run with ``./check sensitivity``; results go to reports/sensitivity.json.
 """
 import json
 import os
@@ -132,7 +132,7 @@ def main(args):
     doc = {"mutations": len(results), "detected": sum(1 for r in results if r.get("detected")), "results": results,
            "wall_s": round(time.time() - t0, 1)}
     if not only:
-        with open(os.path.join(VERIF, "evidence", "sensitivity.json"), "w", encoding="utf-8") as fh:
+        with open(os.path.join(VERIF, "reports", "sensitivity.json"), "w", encoding="utf-8") as fh:
             json.dump(doc, fh, indent=1)
     print(f"sensitivity: {doc['detected']}/{doc['mutations']} detected wall={doc['wall_s']}s")
     return 1 if failures else 0
